@@ -392,6 +392,40 @@ def term_modes(sh: int, qa: int, x0: str, x1: str, x2: str, x3: str, x4: str) ->
     return hit(SUBQ[qa], h) == want
 
 
+def _tag_ext(t):
+    """tag text: a one-character node, or node + "/" + one-character extension or value"""
+    if len(t) == 1:
+        return _tag(t)
+    return len(t) == 3 and t[1] == "/" and _tag(t[0]) and _tag(t[2])
+
+
+def _term_hits_ext(mode, term, text):
+    """oracle on `x` or `x/y`: the extension is not on the schema path (bare), is part of the exact tag (quoted)
+    and follows the short form (trailing star)"""
+    if mode == 0:
+        return _path_has(text[0], term)
+    if mode == 1:
+        return text.casefold() == term
+    return text.casefold().startswith(term)
+
+
+def term_modes_ext(sh: int, qa: int, x0: str, x1: str, x2: str) -> bool:
+    """
+    pre: 0 <= sh < len(SHAPES) and _pin("VP_SH", sh)
+    pre: qa in TERM_OF and _pin("VP_QA", qa)
+    pre: all(_tag_ext(x) for x in [x0, x1, x2])
+    post: _
+    """
+    xs = [x0, x1, x2]
+    h = build(SHAPES[sh], xs)
+    mode, term = TERM_OF[qa]
+    want = False
+    for ch in SHAPES[sh]:
+        if ch.isdigit() and _term_hits_ext(mode, term, xs[int(ch)]):
+            want = True
+    return hit(SUBQ[qa], h) == want
+
+
 def perm_invariant(pm: int, q: int, x0: str, x1: str, x2: str, x3: str, x4: str) -> bool:
     """
     pre: 0 <= pm < len(PERMS) and _pin("VP_PM", pm)
@@ -544,6 +578,18 @@ HARNESSES = [
              "a trailing-star term iff some tag's short form starts with it (case-insensitively)",
         oracle="inline reference over the tag letters and the stub's parent table", stubs=_STUB,
         outside="multi-character tags, values, extensions; the bundled schemas"),
+    R.H("term_modes_ext", _TA + ["hed.models.hed_tag.HedTag._calculate_to_canonical_forms"],
+        quick=R.tier(cells=_cells([("VP_SH", [1, 2]), ("VP_QA", [0, 1, 2, 6, 9])]), timeout=300,
+                     bound="shapes 0,1 and (0,1); every tag either a one-character node or node/x with a "
+                           "one-character extension or value x; terms a, b, \"a\", b*, c"),
+        thorough=R.tier(cells=_cells([("VP_SH", [0, 1, 2, 3, 4, 5, 11]), ("VP_QA", [0, 1, 2, 6, 9])]), timeout=900,
+                        path_timeout=30, bound="all shapes up to 3 tags, same tag texts and terms"),
+        what="a bare term never matches through a tag's extension or value (only through its schema path); a quoted "
+             "term needs the whole tag including the extension; a trailing-star term matches the short form with "
+             "the extension appended",
+        oracle="inline reference (_term_hits_ext) over the tag text and the stub's parent table",
+        stubs=_STUB + ["term stub returns (entry of x, remainder '/y') for a tag text x/y"],
+        outside="extensions longer than one character; values with units; the bundled schemas"),
     R.H("perm_invariant", _TA,
         quick=R.tier(cells=[dict(c, VP_M=6) for c in _cells([("VP_PM", [3, 4]), ("VP_Q", list(range(6)))])],
                      timeout=300,
